@@ -699,6 +699,57 @@ def mini_metrics_yaml(loop, isect, style, ro, lead="A", levels=None, names=("A",
     return y
 
 
+def cascade_metrics_spec(muls, name):
+    """three chained element-wise Einsums on one accelerator; muls = which multiplier each Einsum is bound to"""
+    ranks = ["M", "N"]
+
+    def fmt(t):
+        y = "  %s:\n    default:\n      rank-order: [M, N]\n" % t
+        for r in ranks:
+            y += "      %s:\n        format: C\n        cbits: 32\n        pbits: 64\n" % r
+        return y
+    tensors = ["A", "B", "C", "D", "T", "U", "Z"]
+    y = "format:\n" + "".join(fmt(t) for t in tensors)
+    y += ("architecture:\n  Acc:\n  - name: System\n    attributes:\n      clock_frequency: 101\n    local:\n"
+          "    - name: Mem\n      class: DRAM\n      attributes:\n        bandwidth: 211\n    subtree:\n"
+          "    - name: PE[0..2]\n      local:\n")
+    for i in range(3):
+        y += "      - name: Mul%d\n        class: compute\n        attributes:\n          type: mul\n" % i
+    y += "bindings:\n"
+    ins = {"T": ["A", "B"], "U": ["T", "C"], "Z": ["U", "D"]}
+    for e, mu in zip(("T", "U", "Z"), muls):
+        y += "  %s:\n  - config: Acc\n    prefix: tmp/%s\n  - component: Mem\n    bindings:\n" % (e, e)
+        for t in ins[e] + [e]:
+            for r in ranks:
+                for ty in ("coord", "payload"):
+                    y += "    - tensor: %s\n      rank: %s\n      type: %s\n      format: default\n" % (t, r, ty)
+        y += "  - component: Mul%d\n    bindings:\n    - op: mul\n" % mu
+    from . import spec as S
+    secs = S.split_sections(y)
+    decl = {t: ["M", "N"] for t in tensors}
+    exprs = ["T[m, n] = A[m, n] * B[m, n]", "U[m, n] = T[m, n] * C[m, n]", "Z[m, n] = U[m, n] * D[m, n]"]
+    lo = {e: ["M", "N"] for e in ("T", "U", "Z")}
+    st = {e: {"space": [], "time": ["M", "N"]} for e in ("T", "U", "Z")}
+    return {"name": name, "decl": decl, "exprs": exprs, "mapping": {"loop-order": lo, "spacetime": st},
+            "extents": {"M": 2, "N": 2}, "sizes": {}, "arch": secs["architecture"], "bindings": secs["bindings"], "format": secs["format"],
+            "tags": {"family": "metrics", "template": "cascade3", "leader_first": True, "legal": True}}
+
+
+def sibling_arch(arch, order):
+    """move the intersector of the small accelerator into a single-instance sibling level Ctrl, listed before/after PE[0..2]"""
+    import re
+    m = re.search(r"      - name: Isect\n        class: Intersector\n        attributes:\n          type: [\w-]+\n", arch)
+    if not m:
+        return None
+    isect = m.group(0)
+    arch = arch.replace(isect, "")
+    ctrl = "    - name: Ctrl\n      local:\n" + isect
+    pe_start = arch.index("    - name: PE[0..2]")
+    if order == "before":
+        return arch[:pe_start] + ctrl + arch[pe_start:]
+    return arch + ctrl
+
+
 def reorder_bindings(text, mode):
     """the order of the component entries of an Einsum's bindings (and of the bindings of one component) carries no
     meaning: emit the same bindings in another order"""
@@ -811,6 +862,21 @@ def f_metrics(tier="quick", seed=0):
                               "extents": {"M": 2, "N": 3}, "sizes": {}, "arch": secs["architecture"], "bindings": secs["bindings"],
                               "format": secs["format"],
                               "tags": {"family": "metrics", "template": "mini-elem", "leader_first": not (isect == "leader-follower")}})
+    # three chained Einsums: one block sharing components / three blocks (same multiplier) / two blocks
+    for muls in ((0, 1, 2), (0, 0, 0), (0, 1, 0), (0, 0, 1)):
+        specs.append(cascade_metrics_spec(muls, "metrics/cascade3/mul=%s" % "".join(map(str, muls))))
+    # a single-instance level next to a multi-instance level, in both orders
+    for isect in ("two-finger", "leader-follower"):
+        for order in ("before", "after"):
+            lo = ["M", "K", "N"]
+            y = mini_metrics_yaml(lo, isect, "lazy", {}, "A")
+            secs = S.split_sections(y)
+            a2 = sibling_arch(secs["architecture"], order)
+            if a2:
+                specs.append({"name": "metrics/mini-siblings/%s/ctrl-%s" % (isect, order), "decl": decl, "exprs": exprs,
+                              "mapping": {"loop-order": {"Z": lo}, "spacetime": {"Z": {"space": [], "time": lo}}},
+                              "extents": {"K": 3, "M": 2, "N": 2}, "sizes": {}, "arch": a2, "bindings": secs["bindings"],
+                              "format": secs["format"], "tags": {"family": "metrics", "template": "mini-siblings", "leader_first": True}})
     # partitioned variant (explicit shapes with interleaved levels)
     for lo in (["M1", "N", "K", "M0"], ["N", "M1", "M0", "K"], ["K", "M1", "N", "M0"]):
         for isect in (None, "two-finger", "leader-follower"):
